@@ -100,7 +100,8 @@ int main(int argc, char** argv) {
     hc_exc = "";
     /* stack objects and stack views live in this block (the loop body): compound literals die with their block */
     var sH = $(Half, 5, 0x68616c66);
-    var sI = $I(7); var sF = $F(1.5); var sS = $S("abc"); var sT = tuple($I(1), $I(2));
+    static char sbuf[8]; strcpy(sbuf, "abc");                      /* (writable characters: a refused operation must not have touched them) */
+    var sI = $I(7); var sF = $F(1.5); var sS = $S(sbuf); var sT = tuple($I(1), $I(2));
     volatile var baseA = new(Array, Int, $I(1), $I(2), $I(3));
     var vR = range($I(3)); var vS = slice(baseA, $I(2)); var vZ = zip(baseA, range($I(2))); var vM = map(baseA, $(Function, mapf));
     try {
@@ -187,6 +188,7 @@ int main(int argc, char** argv) {
       else if (!strcmp(op, "dealloc_root")) HC_TRY(dealloc_root(o));
       else if (!strcmp(op, "resize"))      HC_TRY(resize(o, (tt == Tuple && len(o) > 0) ? len(o) - 1 : 1));      /* a Tuple only shrinks, and strictly */
       else if (!strcmp(op, "assign"))      HC_TRY(assign(o, tt == String ? (var)$S("xy") : tt == Tuple ? (var)tuple($I(4)) : (var)$I(1)));
+      else if (!strcmp(op, "assignin"))    HC_TRY(assign(o, tt == String ? (var)$S(c_str(o) + (c_str(o)[0] ? 1 : 0)) : (var)$I(1)));      /* the source lies inside the target's own characters */
       else if (!strcmp(op, "concat"))      HC_TRY(concat(o, tt == String ? (var)$S("zz") : (var)tuple($I(4))));
       else if (!strcmp(op, "append"))      HC_TRY(append(o, $S("q")));
       else if (!strcmp(op, "printto"))     HC_TRY(print_to(o, 0, "%s-%i", $S("zz"), $I(7)));
